@@ -404,6 +404,19 @@ impl VioBag {
             e.1.push(v);
         }
     }
+    /// As `push`, but the violation (with its case rendering) is only built while the class still keeps samples.
+    pub fn push_with(&mut self, clause: &str, tags: &[&str], make: impl FnOnce() -> Violation) {
+        let key = format!("{}|{}", clause, tags.join(","));
+        if let Some(e) = self.0.get_mut(&key) {
+            if e.1.len() >= KEEP_PER_CLASS {
+                e.0 += 1;
+                return;
+            }
+        }
+        let v = make();
+        debug_assert_eq!(format!("{}|{}", v.clause, v.tags.join(",")), key);
+        self.push(v);
+    }
     pub fn merge(&mut self, o: VioBag) {
         for (k, (n, vs)) in o.0 {
             let e = self.0.entry(k).or_insert((0, vec![]));
